@@ -135,17 +135,24 @@ RtSeeds == { <<"H", ":", "/", "/", "l", ":", "8", "/", "x", "?", "x", "#", "x">>
 OrigSeeds == { <<"/", "P", "/", "x", "?", "x">>, <<"/", "x", "/", "x", "?", "x", "#", "x">>, <<"/", "P">> }
 
 RtPrefixes == {<<sc, ":", a, b>> : sc \in PrefixSchemes, a \in PrefixSlashes, b \in PrefixSlashes}
-Tails == StrUpTo(TailAlphabet, TailLen)
-RtStrings == StrUpTo(FlatAlphabet, FlatLen) \cup {p \o t : p \in RtPrefixes, t \in Tails}
-             \cup UNION {Neighbours(s) : s \in RtSeeds}
-OrigStrings == {<<"/">> \o t : t \in Tails} \cup {<<"/">> \o t : t \in StrUpTo(FlatAlphabet, FlatLen)}
-               \cup {s \in UNION {Neighbours(x) : x \in OrigSeeds} : s # <<>> /\ s[1] = "/"}
+RtCfgs   == {"noport", "port"}     \* which origin the deployment allowlists
+OrigCfgs == {"root", "vgi"}        \* the service prefix: "" | "/" \o P
 
-(* role "rt"  : s is a _vgi_return_to value,   cfg = which origin is allowlisted ("noport" | "port")
-   role "orig": s is a request path(+query) as the server sees it (always starts with "/"),
-                cfg = the service prefix ("root" = "" | "vgi" = "/" \o P)                                *)
-Cases == {[role |-> "rt", cfg |-> al, s |-> s] : al \in {"noport", "port"}, s \in RtStrings}
-    \cup {[role |-> "orig", cfg |-> p, s |-> s] : p \in {"root", "vgi"}, s \in OrigStrings}
+(* role "rt"  : s is a _vgi_return_to value,   cfg \in RtCfgs
+   role "orig": s is a request path(+query) as the server sees it (always starts with "/"), cfg \in OrigCfgs
+   The case space is the union of the six families below.  (They take a dummy parameter and are enumerated as
+   separate disjuncts of the initial predicate: TLC pre-evaluates and deep-normalises zero-arity constant
+   definitions and its UNION / \cup of large un-normalised sets is quadratic -- 12 minutes instead of 10 seconds.) *)
+Rt(S)   == {[role |-> "rt", cfg |-> al, s |-> s] : al \in RtCfgs, s \in S}
+Orig(S) == {[role |-> "orig", cfg |-> p, s |-> s] : p \in OrigCfgs, s \in S}
+RtFlat(d)    == Rt(StrUpTo(FlatAlphabet, FlatLen))
+RtTails(d)   == Rt({p \o t : p \in RtPrefixes, t \in StrUpTo(TailAlphabet, TailLen)})
+RtNeigh(d)   == Rt(UNION {Neighbours(s) : s \in RtSeeds})
+OrigFlat(d)  == Orig({<<"/">> \o t : t \in StrUpTo(FlatAlphabet, FlatLen)})
+OrigTails(d) == Orig({<<"/">> \o t : t \in StrUpTo(TailAlphabet, TailLen)})
+OrigNeigh(d) == Orig({s \in UNION {Neighbours(x) : x \in OrigSeeds} : s # <<>> /\ s[1] = "/"})
+Cases(d) == UNION {RtFlat(d), RtTails(d), RtNeigh(d), OrigFlat(d), OrigTails(d), OrigNeigh(d)}
+CaseFamilies == <<"RtFlat", "RtTails", "RtNeigh", "OrigFlat", "OrigTails", "OrigNeigh">>
 
 Al(c) == IF c.role = "rt" THEN c.cfg ELSE "noport"
 Expected(c) == [kind |-> Ref(c.s, Al(c))]
